@@ -787,7 +787,9 @@ let conn_case (line : string) : string =
   match split_on " ;; " line with
   | [] -> failwith "empty"
   | head :: steps ->
-    (match (match words head with [a; b; c; d] -> [a; b; c; d; "E."] | w -> w) with
+    (* T<ms> (the receive timeout of a paced history) means nothing to the model: a read with nothing to read and the
+       stream open is "timeout" whatever the clock says *)
+    (match (match List.filter (fun w -> not (String.length w > 1 && w.[0] = 'T')) (words head) with [a; b; c; d] -> [a; b; c; d; "E."] | w -> w) with
      | ["conn"; cfgf; peerf; connect; early] ->
         let negotiated = n_of_int ((int_of_string cfgf) land (int_of_string peerf)) in
         let connected = connect = "1" in
@@ -886,7 +888,18 @@ let show_lmsgs (evs : lmsg list) : string =
         List.sort compare run @ go rest
     | (_, x) :: r -> x :: go r in
   match go items with [] -> "-" | l -> String.concat " , " l
+(* a node that makes calls before and after Node::start: the reply identifiers come from one allocator, whose creation
+   (and nothing else) start replaces — the placeholder creation of an unstarted node is 1 *)
+let nodemix_case (cr : string) (ops : string list) : string =
+  let st = ref { next_id = initial_next_id; next_serial = N0; creation = n_of_int 1 } in
+  let out = ref [] in
+  List.iter (fun op ->
+    if op = "s" then st := { !st with creation = n_of_dec cr }
+    else (let (p, st') = allocate !st in st := st';
+          out := Printf.sprintf "%d.%d.%d" (int_of_n p.p_id) (int_of_n p.p_serial) (int_of_n p.p_creation) :: !out)) ops;
+  String.concat " " (List.rev !out)
 let node_case (line : string) : string =
+  match words line with "nodemix" :: cr :: ops -> nodemix_case cr ops | _ ->
   match split_on " ;; " line with
   | [] -> failwith "empty"
   | head :: steps ->
